@@ -258,6 +258,25 @@ class World:
             self.loop.run_ready()
         except Exception:
             pass
+        # Cancelling the resend tasks leaves CancelledError tracebacks on them whose frames (this close(), fresh(), the
+        # explorer's _expand with its parent/child worlds) chain every world ever built to the next one.  Cut the world
+        # loose from everything heavy so that chain holds a few empty shells at most; model/violations/flags stay.
+        for p in self.protos:
+            sock = getattr(getattr(p, "transport", None), "transport", None)
+            if sock is not None:
+                sock.world = sock.proto = None
+            p.resend_task = None
+            p.transport = None
+            p.session = None
+            p.session_manager = None
+        self.protos = []
+        self.sessions = []
+        self.sm = None
+        self.loop = None
+        self.ctx = None
+        self.sends = []
+        self.circuit_objs = []
+        self.addons = []
 
 
 _LAST: Optional[World] = None
